@@ -1279,6 +1279,10 @@ impl Model {
                             None => self.create_dataset(idstr, fx),
                         }
                     }
+                    SetRef::Unnamed => match self.find_dataset_by_id(crate::ops::DEFAULT_SET) {
+                        Some(uid) => uid,
+                        None => self.create_dataset(crate::ops::DEFAULT_SET, fx),
+                    },
                 };
                 let d = insert_data_into(
                     &mut self.datasets[set_uid],
